@@ -52,6 +52,7 @@ type kase struct {
 	Ident   string  `json:"identity"`
 	Loggers string  `json:"loggers"` // "server" | "all"
 	Devs    []dev   `json:"deviations"`
+	Passes  int     `json:"passes"` // 2: the request is sent a second time with warm caches
 	Req     request `json:"request"`
 }
 
@@ -72,7 +73,7 @@ type result struct {
 	Micros   int64    `json:"us"`
 }
 
-var caseLimit = 120 * time.Second
+var caseLimit = 600 * time.Second
 
 var trace = os.Getenv("C40_TRACE") != ""
 
@@ -131,6 +132,16 @@ func workerMain() {
 			os.Exit(2)
 		}
 
+		// warm-up: the first bearer token a process validates costs one Argon2id
+		// derivation of the sealing key (memoised afterwards by rt/vargon2); it
+		// is paid here, outside any case and its time limit
+		warm := request{Method: "GET", Target: lit("/admin/memory"), Headers: []header{{"Accept", lit("application/json")}, {"Authorization", lit("Bearer " + w.tokens[adminName])}}}
+		if a := srv.roundTrip(warm.wire(), 30*time.Minute); a.Status != 200 {
+			_ = enc.Encode(result{Seq: -1, Fatal: fmt.Sprintf("warm-up: the administrator's bearer token was answered %d", a.Status)})
+
+			os.Exit(2)
+		}
+
 		w.restore()
 	}
 
@@ -169,7 +180,12 @@ func runCase(w *world, srv *server, k *kase) result {
 
 	w.setLoggers(k.Loggers == "all")
 
-	for pass := 0; pass < 2; pass++ {
+	passes := k.Passes
+	if passes < 1 || passes > 2 {
+		passes = 2
+	}
+
+	for pass := 0; pass < passes; pass++ {
 		a := srv.roundTrip(raw, caseLimit)
 
 		res.Status[pass] = a.Status
@@ -272,7 +288,7 @@ func panicSite(stack string) (string, []string) {
 
 		short := strings.TrimPrefix(fn, "github.com/tucats/ego/internal/")
 
-		if strings.HasPrefix(fn, "main.(*observer)") || strings.HasPrefix(fn, "net/http.") {
+		if strings.HasPrefix(fn, "main.(*observer)") || strings.HasPrefix(fn, "net/http.serverHandler") || strings.HasPrefix(fn, "net/http.(*conn)") {
 			break
 		}
 
@@ -318,6 +334,8 @@ func panicClass(v string) string {
 		return "closed-channel"
 	case strings.HasPrefix(v, "reflect:"):
 		return "reflect"
+	case strings.Contains(v, "invalid WriteHeader code"):
+		return "invalid-status-code"
 	default:
 		return "other"
 	}
@@ -679,7 +697,7 @@ func main() {
 
 		must(report.LoadReplay(r.Replay, &wit), "replay file")
 
-		k := kase{Seq: 0, Route: wit.Route, Ident: wit.Identity, Loggers: wit.Loggers, Devs: wit.Deviations, Req: wit.Request}
+		k := kase{Seq: 0, Route: wit.Route, Ident: wit.Identity, Loggers: wit.Loggers, Devs: wit.Deviations, Passes: 2, Req: wit.Request}
 		v := newVerdict(r, plan)
 
 		runAll(scratch, 1, func(yield func(kase)) { yield(k) }, v.add)
@@ -777,13 +795,13 @@ func (v *verdict) add(o outcome) {
 		return
 	}
 
-	passes := 2
+	passes := k.Passes
+	if passes < 1 || passes > 2 {
+		passes = 2
+	}
+
 	if res.Shutdown {
 		passes = 1
-		if res.Status[1] != 0 {
-			passes = 2
-		}
-
 		v.shutdowns[k.Route]++
 	}
 
